@@ -46,6 +46,9 @@ def run_case(run, drv, case_seed):
                 with open(os.path.join(d, ".torrent"), "wb") as fd:
                     fd.write(b"precious bystander")
         write_tree(os.path.join(box, "bystanders"), [("x/y.bin", b"yy"), ("z", b"")])
+        if rng.random() < 0.6:
+            with open(m["path"] + ".part", "wb") as fd:       # somebody's file, or a leftover
+                fd.write(b"d4:infod4:name4:parte" + b"e")
         damaged = rng.random() < 0.5
         if damaged:
             rel, blob = rng.choice(m["files"])
@@ -148,7 +151,13 @@ def run_case(run, drv, case_seed):
                     os.remove(newp)
                 if occupied:
                     with open(newp, "wb") as fd:
-                        fd.write(b"occupied - must survive")
+                        if rng.random() < 0.5:
+                            fd.write(b"occupied - must survive")
+                        else:
+                            # same size and same timestamps as the source, different bytes
+                            fd.write(bytes(b ^ 1 for b in open(src, "rb").read()))
+                    st = os.stat(src)
+                    os.utime(newp, ns=(st.st_atime_ns, st.st_mtime_ns))
                 before = snapshot(box)
                 raised = None
                 with effects.traced(fence=[box]) as tr:
